@@ -255,8 +255,71 @@ func checkC12(c *h.Check) {
 			add(fmt.Sprintf("C12/fieldsof-ptr-and-value-field/names=%d/ptrparent=%d", v, ptrParent), &ir.Program{Root: p, Injectors: []*ir.Injector{inj}})
 		}
 	}
+	// fields of reference-like types (pointer, slice) selected from a pointer parent: the pointer to the field is
+	// provided just as for any other field
+	for v, fk := range []string{"ptr", "slice", "leaf"} {
+		for cons := 0; cons < 3; cons++ { // 0 the field value, 1 the pointer to the field, 2 both
+			b := ir.NewBuilder()
+			p := b.Root
+			lg := b.Leaf(p, "Logger")
+			var ft *ir.Type
+			switch fk {
+			case "ptr":
+				ft = ir.Ptr(lg)
+			case "slice":
+				ft = ir.Slice(lg)
+			default:
+				ft = lg
+			}
+			cfgT := b.Agg(p, "Config", &ir.Field{Name: "L", T: ft}, &ir.Field{Name: "N", T: b.Leaf(p, "Name")})
+			r := b.Leaf(p, "R")
+			var deps []*ir.Type
+			if cons != 1 {
+				deps = append(deps, ft)
+			}
+			if cons != 0 {
+				deps = append(deps, ir.Ptr(ft))
+			}
+			inj := &ir.Injector{Name: "Init", Out: r, Items: []*ir.Item{
+				ir.FuncItem(&ir.Func{Pkg: p, Name: "PS", Out: ir.Ptr(cfgT)}),
+				ir.FieldsOfItem(cfgT, true, "L"),
+				ir.FuncItem(&ir.Func{Pkg: p, Name: "PR", Params: deps, Out: r}),
+			}}
+			add(fmt.Sprintf("C12/fieldsof-reference-typed-field/kind=%d/cons=%d", v, cons), &ir.Program{Root: p, Injectors: []*ir.Injector{inj}})
+		}
+	}
+	// fields selected from two different parents in one injector, the second parent having an unlisted field named
+	// and typed like a field listed for the first: every selection reads from its own parent
+	for ptr := 0; ptr < 2; ptr++ {
+		for order := 0; order < 2; order++ {
+			b := ir.NewBuilder()
+			p := b.Root
+			dsn, lag := b.Leaf(p, "DSN"), b.Leaf(p, "Lag")
+			prim := b.Agg(p, "Primary", &ir.Field{Name: "DSN", T: dsn})
+			repl := b.Agg(p, "Replica", &ir.Field{Name: "DSN", T: dsn}, &ir.Field{Name: "Lag", T: lag})
+			var primT, replT *ir.Type = prim, repl
+			if ptr == 1 {
+				primT, replT = ir.Ptr(prim), ir.Ptr(repl)
+			}
+			r := b.Leaf(p, "R")
+			deps := []*ir.Type{dsn, lag}
+			if ptr == 1 {
+				deps = []*ir.Type{dsn, ir.Ptr(dsn), lag}
+			}
+			f1, f2 := ir.FieldsOfItem(prim, ptr == 1, "DSN"), ir.FieldsOfItem(repl, ptr == 1, "Lag")
+			items := []*ir.Item{ir.FuncItem(&ir.Func{Pkg: p, Name: "PPrimary", Out: primT}), ir.FuncItem(&ir.Func{Pkg: p, Name: "PReplica", Out: replT})}
+			if order == 0 {
+				items = append(items, f1, f2)
+			} else {
+				items = append(items, f2, f1)
+				deps[0], deps[len(deps)-1] = deps[len(deps)-1], deps[0]
+			}
+			items = append(items, ir.FuncItem(&ir.Func{Pkg: p, Name: "PR", Params: deps, Out: r}))
+			add(fmt.Sprintf("C12/fieldsof-two-parents/ptr=%d/order=%d", ptr, order), &ir.Program{Root: p, Injectors: []*ir.Injector{{Name: "Init", Out: r, Items: items}}})
+		}
+	}
 	results := c.JudgeAll(cases)
-	stdCoverage(c, cases, results, "a struct with a *T field next to a T field selected from a value and from a pointer parent (both: two sources for *T; one: that one); four injectors in one package selecting different same-typed fields of one struct; 6 struct shapes (exported/unexported/embedded/prevented fields; tagged fields; pairs and triples of names differing only in letter case) x wire.Struct with every subset of names, \"*\", an unknown name, \"*\" followed by an unknown or a known name x consumers {S, *S, both}; wire.FieldsOf with every non-empty subset and an unknown name x {new(S), new(*S)} x struct {provided by a function, handed in as an injector argument} x consumers of {field type, pointer to field, pointer plus parent with an aliasing probe that compares addresses and writes through the pointer}. Oracle: prevented/unknown names rejected; accepted programs run and the constructed struct is described field by field (selected fields carry the designated identities, all others zero); selected fields equal the parent's fields. Distinct = distinct rendered source.")
+	stdCoverage(c, cases, results, "pointer- and slice-typed fields selected from a pointer parent (value, pointer to the field, both); fields selected from two parents of which the second has an unlisted namesake; a struct with a *T field next to a T field selected from a value and from a pointer parent (both: two sources for *T; one: that one); four injectors in one package selecting different same-typed fields of one struct; 6 struct shapes (exported/unexported/embedded/prevented fields; tagged fields; pairs and triples of names differing only in letter case) x wire.Struct with every subset of names, \"*\", an unknown name, \"*\" followed by an unknown or a known name x consumers {S, *S, both}; wire.FieldsOf with every non-empty subset and an unknown name x {new(S), new(*S)} x struct {provided by a function, handed in as an injector argument} x consumers of {field type, pointer to field, pointer plus parent with an aliasing probe that compares addresses and writes through the pointer}. Oracle: prevented/unknown names rejected; accepted programs run and the constructed struct is described field by field (selected fields carry the designated identities, all others zero); selected fields equal the parent's fields. Distinct = distinct rendered source.")
 	c.Coverage["model_verdict_classes"] = kinds.summary()
 	sampleCase(c, cases, results)
 	if kinds["model:accept"] < 50 || kinds["model:bad-field"] < 20 {
